@@ -132,13 +132,20 @@ func c09ReadHeader(c *Ctx) {
 
 func c09ReadFrame(c *Ctx) {
 	const rule = "R2-frame-validation"
-	fn := c.fn(rule, "(*ls.WALReader).readFrame")
+	// split form: the verifyChecksum flag replaced by two functions over a shared core;
+	// the verifying path is then the exported ReadFrame with the core virtually inlined
+	split := c.P.Func("(*ls.WALReader).readFrame") == nil && c.P.Func("(*ls.WALReader).ReadFrame") != nil
+	anchor := "(*ls.WALReader).readFrame"
+	if split {
+		anchor = "(*ls.WALReader).ReadFrame"
+	}
+	fn := c.fn(rule, anchor)
 	if fn == nil {
 		return
 	}
 	succ := successReturns(fn)
 	c.floor(rule, len(succ), 1, "success returns of readFrame")
-	reads := callsTo(fn, isReadAt)
+	reads := callsToDeep(fn, isReadAt)
 	c.floor(rule, len(reads), 2, "ReadAt calls in readFrame")
 	if len(reads) < 2 {
 		return
@@ -156,7 +163,26 @@ func c09ReadFrame(c *Ctx) {
 		c.fail(rule, fnName(fn)+": header read and page read present", c.P.Pos(fn.Pos()), "could not identify the frame-header read and the page read (ReadAt into the data parameter)")
 		return
 	}
-	hdr := sliceBase(vIs(argOf(hdrRead, 0)))
+	hdrBuf := argOf(hdrRead, 0)
+	hdr := sliceBase(func(v ssa.Value) bool {
+		if v == hdrBuf {
+			return true
+		}
+		if !split {
+			return false
+		}
+		// the buffer is the core's parameter there and a local of its callers here
+		for _, a := range origins(hdrBuf) {
+			for _, b := range origins(v) {
+				if a == b {
+					if _, isParam := a.(*ssa.Parameter); !isParam {
+						return true
+					}
+				}
+			}
+		}
+		return false
+	})
 	sites := []Site{}
 	for _, r := range succ {
 		sites = append(sites, Site{r, "success return"})
@@ -223,7 +249,9 @@ func c09ReadFrame(c *Ctx) {
 		}
 		// only on the verifying path
 		vw.Desc = "running checksum update over " + over
-		c.requireGuardV(rule, fn, vw, truthFact(verify, true, "verifyChecksum"))
+		if !split {
+			c.requireGuardV(rule, fn, vw, truthFact(verify, true, "verifyChecksum"))
+		}
 	}
 	c.check(sawHdr && sawData, rule, fnName(fn)+": checksum covers frame header[:8] and page data", c.P.Pos(fn.Pos()), "both steps present", "the cumulative checksum does not cover both the frame header prefix and the page")
 	// comparison happens after the update: every checksum compare edge is dominated by both updates
@@ -256,6 +284,31 @@ func c09ReadFrame(c *Ctx) {
 	doff := argOf(dataRead, 1)
 	c.check(vBinOp(token.ADD, vIs(hoff), vConstInt(24), true)(doff), rule, fnName(fn)+": page read offset = frame offset + WALFrameHeaderSize", c.pos(dataRead), "provenance matches", "page is not read from frame offset + 24")
 
+	// split form: a function that adopts the frame's stored checksum instead of verifying it
+	// (r.chksum1 = hdr[16:]) is reachable from NewWALReaderWithOffset only
+	if split {
+		for _, g := range c.P.ProdFuncs() {
+			if g.Parent() != nil || g == fn {
+				continue
+			}
+			adopts := false
+			for _, st := range storesToField(g, "WALReader.chksum1") {
+				if vU32At(nil, 16)(st.Val) {
+					adopts = true
+				}
+			}
+			if !adopts {
+				continue
+			}
+			for _, cs := range callSitesOf(g) {
+				owner := cs.Parent()
+				for owner.Parent() != nil {
+					owner = owner.Parent()
+				}
+				c.check(fnName(owner) == "ls.NewWALReaderWithOffset", rule, "caller "+fnName(owner)+" of the non-verifying frame read "+fnName(g), c.pos(cs), "NewWALReaderWithOffset (seeds checksum from previous frame)", "a caller other than NewWALReaderWithOffset reads frames without checksum verification")
+			}
+		}
+	}
 	// exported ReadFrame verifies checksums; only NewWALReaderWithOffset may skip verification
 	for _, f := range c.P.ProdFuncs() {
 		for _, call := range callsTo(f, nameIs("(*ls.WALReader).readFrame")) {
@@ -628,6 +681,14 @@ func c09WithOffset(c *Ctx) {
 	c.floor(rule, len(succ), 1, "success returns of NewWALReaderWithOffset")
 	rh := callsTo(fn, nameIs("(*ls.WALReader).readHeader"))
 	rf := callsTo(fn, nameIs("(*ls.WALReader).readFrame"))
+	if len(rf) == 0 {
+		// split form: the previous frame is read by a new function that reads the WAL itself
+		for _, k := range calls(fn) {
+			if h := k.Common().StaticCallee(); isNewHelper(h) && len(callsToDeep(h, isReadAt)) > 0 && errResultIndex(h.Signature) >= 0 {
+				rf = append(rf, k)
+			}
+		}
+	}
 	c.floor(rule, len(rh), 1, "readHeader call")
 	c.floor(rule, len(rf), 1, "readFrame call (previous frame)")
 	for _, r := range succ {
@@ -637,7 +698,7 @@ func c09WithOffset(c *Ctx) {
 			c.requireGuard(rule, fn, s, cmpFact(vIs(resultOf(call, 0)), token.EQL, vNil(), "readHeader err == nil"))
 		}
 		for _, call := range rf {
-			c.requireGuard(rule, fn, s, cmpFact(vIs(resultOf(call, 2)), token.EQL, vNil(), "previous-frame readFrame err == nil"))
+			c.requireGuard(rule, fn, s, cmpFact(vIs(resultOf(call, errResultIndex(call.Common().Signature()))), token.EQL, vNil(), "previous-frame readFrame err == nil"))
 		}
 		c.requireGuard(rule, fn, s, cmpFact(vBinOp(token.REM, vBinOp(token.SUB, vParam("offset"), vConstInt(32), false), vAny(), false), token.EQL, vConstInt(0), "(offset-WALHeaderSize) % frameSize == 0"))
 	}
@@ -659,7 +720,16 @@ func c09WithOffset(c *Ctx) {
 	// previous frame: frameN = (offset-32)/frameSize - 1 and read with verification disabled (checksum seeded from that frame)
 	for _, call := range rf {
 		a := namedArg(call, "verifyChecksum")
-		c.check(a != nil && vConstBool(false)(a), rule, fnName(fn)+": previous frame read seeds the checksum (verifyChecksum=false)", c.pos(call), "constant false", "unexpected verification mode")
+		adopts := false
+		if h := call.Common().StaticCallee(); a == nil && isNewHelper(h) {
+			// split form: the function called adopts the stored checksum itself
+			for _, st := range storesToField(h, "WALReader.chksum1") {
+				if vU32At(nil, 16)(st.Val) {
+					adopts = true
+				}
+			}
+		}
+		c.check(adopts || (a != nil && vConstBool(false)(a)), rule, fnName(fn)+": previous frame read seeds the checksum (verifyChecksum=false)", c.pos(call), "constant false", "unexpected verification mode")
 	}
 }
 
